@@ -634,7 +634,9 @@ static int mc_finish(void) {
     // evidence
     mkdir("evidence", 0777);
     char ep[256], tmp[300];
-    if (*mc_part)
+    if (*mc_part && getenv("VERIF_PART_DIR"))
+        snprintf(ep, sizeof ep, "%s/part-%s.json", getenv("VERIF_PART_DIR"), mc_part);
+    else if (*mc_part)
         snprintf(ep, sizeof ep, "build/%s/part-%s.json", MC_PROPERTY, mc_part);
     else
         snprintf(ep, sizeof ep, "evidence/%s.json", MC_PROPERTY);
